@@ -2,7 +2,7 @@
    Theorem statements only; proofs are in Rank.v / Betti.v. *)
 From Coq Require Import ZArith List.
 From mathcomp Require Import all_ssreflect all_algebra.
-From SV Require Import Names Rep Complex Homology ListMat SnfCount Rank Betti Gen.
+From SV Require Import Names Rep Complex Homology ListMat SnfCount Rank Betti EulerP Gen.
 Import ListNotations.
 
 (* the elimination of _reduceBoundaries, on every 0/1 matrix of every shape, ends in the partial
@@ -28,6 +28,14 @@ Print Assumptions C06_betti.
 Theorem C06_above_max : forall (r : rep) (k : nat), (r_nord r <= k)%coq_nat -> (0 < k)%coq_nat -> betti1 r k = Z0.
 Proof. exact betti_above_max. Qed.
 Print Assumptions C06_above_max.
+
+(* the alternating sum over all orders equals the alternating sum of the numbers of k-simplices
+   (columns of d_k), i.e. the Euler characteristic *)
+Theorem C06_euler_poincare :
+  forall r, alt_sumZ (Zpos xH) (List.map (betti1 r) (List.seq 0 (r_nord r))) =
+            alt_sumZ (Zpos xH) (List.map (fun k => Z.of_nat (ncols (boundaryOperator r k))) (List.seq 0 (r_nord r))).
+Proof. exact euler_poincare. Qed.
+Print Assumptions C06_euler_poincare.
 
 (* non-vacuity / field check by computation in the kernel: the model's Betti numbers of the
    2-sphere, the 7-vertex torus and the 6-vertex projective plane (1,1,1 over GF(2), not 1,0,0) *)
